@@ -439,6 +439,18 @@ func runHistory(w *W, st *c15stats, src objSource, hseed uint64, n int) {
 	if twinAfter := obsVector(src.make()); twinAfter != selfBefore {
 		w.Violate(Violation{Monitor: "C15", Check: "an object obtained after the history reports what the one obtained before reported", Case: c, Observed: clip(twinAfter, 600), Expected: clip(selfBefore, 600)})
 	}
+	// A Decode on a receiver that has only been queried (constructor result) must behave like a Decode on an
+	// untouched one: queries do not change what later operations return.
+	if src.Mode == 2 {
+		s2 := src.Input
+		a, aerr, apan := lib.DecodeOn(o, s2)
+		b, berr, bpan := lib.DecodeOn(lib.New(src.Kind), s2)
+		ra := fmt.Sprint(lib.ErrClass(aerr), apan != nil, "|", obsVector(a))
+		rb := fmt.Sprint(lib.ErrClass(berr), bpan != nil, "|", obsVector(b))
+		if ra != rb {
+			w.Violate(Violation{Monitor: "C15", Check: "Decode on a constructor result that was queried first returns what Decode on an untouched constructor result returns", Case: c, Observed: clip(ra, 600), Expected: clip(rb, 600), Note: fmt.Sprint(trace)})
+		}
+	}
 	w.DistinctS("objects", src.Input+src.Kind.String()+fmt.Sprint(src.Mode))
 }
 
